@@ -52,6 +52,11 @@ def run_case(case):
     o = dict(GridSize=n, StepsPerTs=steps, DampingTime=td, rotations=periods, outstep=max(1, int(periods * steps / nrec)),
              VacuumGap=0.0, InitialDistZoom=z, InterpolationPoints=case["it"], derivation=case["deriv"], FPType=fpt,
              RenormalizeCharge=case["renorm"])
+    if case.get("nb2"):
+        # "the bunch length and energy spread converge": of every bunch - the last bunch of a two-bunch fill is judged
+        # (without impedance the bunches are independent; round-7 seed C04g carries only the first one through the
+        # identity step that stands in for the wake kick)
+        o["BunchCurrent"] = [1e-3, 2e-3]
     if case.get("off_via_td"):
         # the second way to switch the Fokker-Planck term off: DampingTime = 0 ("Fokker-Planck-Term is neglected."), with the
         # full operator type selected (round-6 seed C04f falls back to the ring's calculated damping time for exactly 0)
@@ -62,12 +67,12 @@ def run_case(case):
         o["StepsPerRevolution"] = float(steps * d0["fs"] / d0["frev"])
         o["StepsPerTs"] = int(case["via_rev"])
     h, msg = run_one(o, wd, "r.h5")
-    cls = (["steps_per_revolution"] if case.get("via_rev") else []) + (["off_via_dampingtime"] if case.get("off_via_td") else []) + ["fpt%d" % fpt, "d%d" % case["deriv"], "it%d" % case["it"], "n%d" % n,
+    cls = (["two_bunches"] if case.get("nb2") else []) + (["steps_per_revolution"] if case.get("via_rev") else []) + (["off_via_dampingtime"] if case.get("off_via_td") else []) + ["fpt%d" % fpt, "d%d" % case["deriv"], "it%d" % case["it"], "n%d" % n,
            "zoom<0.3" if z < 0.3 else ("zoom<0.75" if z < 0.75 else ("zoom>1.25" if z > 1.25 else "zoom~1"))]
     if h is None:
         return Outcome(False, True, cls, msg, sig="c04:runfail")
-    sq = h["/BunchLength/data"][:, 0].astype(np.float64)
-    sp = h["/EnergySpread/data"][:, 0].astype(np.float64)
+    sq = h["/BunchLength/data"][:, -1].astype(np.float64)
+    sp = h["/EnergySpread/data"][:, -1].astype(np.float64)
     t = h["/Info/AxisValues_t"].astype(np.float64)
     theta = 2 * np.pi / steps
     tau = tau_disc(n, case["deriv"])
@@ -102,11 +107,11 @@ def run_case(case):
             h2, msg = run_one(dict(o, InitialDistZoom=case["zoom2"]), wd, "r2.h5")
             if h2 is None:
                 return Outcome(False, nontriv, cls, msg, sig="c04:runfail")
-            e = max(abs(h2["/BunchLength/data"][-1, 0] - sq[-1]), abs(h2["/EnergySpread/data"][-1, 0] - sp[-1]))
+            e = max(abs(h2["/BunchLength/data"][-1, -1] - sq[-1]), abs(h2["/EnergySpread/data"][-1, -1] - sp[-1]))
             met["start_dependence"] = float(e / tau)
             if e > tau:
                 return Outcome(False, nontriv, cls, "limit depends on the start: zoom %g ends at %.5f/%.5f, zoom %g at %.5f/%.5f" %
-                               (z, sq[-1], sp[-1], case["zoom2"], h2["/BunchLength/data"][-1, 0], h2["/EnergySpread/data"][-1, 0]), sig="c04:startdep", metrics=met)
+                               (z, sq[-1], sp[-1], case["zoom2"], h2["/BunchLength/data"][-1, -1], h2["/EnergySpread/data"][-1, -1]), sig="c04:startdep", metrics=met)
             cls.append("pair")
     else:
         # Damping / diffusion act on the energy only and the rotation exchanges q and p: the individual widths therefore
@@ -152,6 +157,8 @@ def cases(draw, fast=True):
               gen.f32(draw(st.one_of(st.floats(0.1, 0.4), st.floats(0.4, 0.75), st.floats(1.25, 2.0)))))
     c = dict(n=n, steps=steps, e1=e1, zoom=z, fptype=fpt, it=draw(st.sampled_from([3, 4, 4])), deriv=draw(st.sampled_from([3, 4])),
              renorm=draw(st.sampled_from([-1, 0, 0, 50])), K=5.0)
+    if draw(st.integers(0, 4)) == 0:
+        c["nb2"] = True
     if draw(st.integers(0, 5)) == 0:
         c["via_rev"] = draw(st.sampled_from([10, 100, 1000, 3000]))
     if fpt == 3 and draw(st.integers(0, 3)) == 0:
